@@ -15,13 +15,14 @@ for d in seeded/*/; do
   cls=$(grep -m1 "class=" /tmp/regress_$n.out | sed 's/ detail=.*//')
   echo "$n $prop rc=$rc $cls"
   if [ $rc = 1 ]; then pass=$((pass+1)); else fail=$((fail+1)); fi
-  if [ -f $d/benign.diff ]; then
-    git -C $R apply $V/$d/benign.diff || { echo "$n BENIGN-APPLY-FAILED"; continue; }
+  for bn in benign benign2; do
+    [ -f $d/$bn.diff ] || continue
+    git -C $R apply $V/$d/$bn.diff || { echo "$n $bn APPLY-FAILED"; continue; }
     VERIF_REPO=$R python3 check.py $prop --tier quick > /tmp/regress_b_$n.out 2>&1; rc=$?
     git -C $R checkout -- .
-    echo "$n benign $prop rc=$rc $(grep -m1 'class=' /tmp/regress_b_$n.out | sed 's/ detail=.*//')"
+    echo "$n $bn $prop rc=$rc $(grep -m1 'class=' /tmp/regress_b_$n.out | sed 's/ detail=.*//')"
     if [ $rc = 0 ]; then bok=$((bok+1)); else bbad=$((bbad+1)); fi
-  fi
+  done
 done
 git checkout -- evidence 2>/dev/null; git clean -fdq replays 2>/dev/null
 echo "caught=$pass not-caught=$fail benign-silent=$bok benign-alarm=$bbad"
